@@ -29,7 +29,9 @@ func (s *scope) makevar(varname string) string {
 // the mapping: the variable is not yet visible.
 func (s *scope) genname(varname string) string {
 	s.n++
-	return varname + strconv.Itoa(s.n)
+	// The underscore keeps names apart that differ only in where the variable
+	// name ends and the number begins ($x1 as variable 1 and $x as variable 11).
+	return varname + "_" + strconv.Itoa(s.n)
 }
 
 // bind makes the variable visible under the given JS name in this scope.
@@ -49,7 +51,7 @@ func (s *scope) lookup(varname string) string {
 
 func (s *scope) pushForRange(loopVar string) (lVar, lInit, lStep, lCount, lIndex string) {
 	s.n++
-	n := strconv.Itoa(s.n)
+	n := "_" + strconv.Itoa(s.n)
 	s.stack = append(s.stack, map[string]string{
 		loopVar:   loopVar + n,
 		"__var":   loopVar,
@@ -65,7 +67,7 @@ func (s *scope) pushForRange(loopVar string) (lVar, lInit, lStep, lCount, lIndex
 
 func (s *scope) pushForEach(loopVar string) (lVar, lList, lLen, lIndex string) {
 	s.n++
-	n := strconv.Itoa(s.n)
+	n := "_" + strconv.Itoa(s.n)
 	s.stack = append(s.stack, map[string]string{
 		loopVar:   loopVar + n,
 		"__var":   loopVar,
